@@ -3,13 +3,15 @@
   (Props/C17/KernelTieB32.lean).  Both sides of such a tie are straight-line programs in the `Option` monad:
       generated:  x₁.bind fun a₁ => x₂.bind fun a₂ => … => some r           (one bind per checked Rust operation)
       model:      the same operations, grouped into helpers (`carryR`, `mac`, `qstep`, …) that end in `pure`
-  After the helpers are unfolded and the binds re-associated (`simp only [helpers, Option.bind_assoc]`), the model
-  side differs from the generated side only by redexes `(some v).bind K`.  `simp only [Option.bind_some]` removes
-  them but re-simplifies the whole continuation after every step (measured: exponential in the number of redexes,
-  > 5 min for `Fe::to_bytes`).  `bind_walk` instead walks both sides from the head, syntactically:
-      rhs = (some v).bind K          ↦  rhs := K v          (definitional, no search)
-      lhs = x.bind F, rhs = y.bind G ↦  `x = y` by `rfl` on the small operand terms, continue with `F a = G a`
-  and leaves the final `some r = some r'` goal (closed by `rfl` by the caller).  Every step is linear in the term.
+  Normalising the model side with `simp only [helpers, Option.bind_assoc, Option.bind_some]` re-simplifies the whole
+  continuation after every rewrite (measured: exponential in the number of `(some v).bind K` redexes, > 5 min for
+  `Fe::to_bytes`; step limit exceeded for `sc_reduce`).  `bind_walk [helpers]` instead walks both sides from the head,
+  syntactically, one explicit lemma application per move (the kernel is never asked to discover a reduction):
+      side = c args,  c ∈ helpers              ↦  unfold c                       (definitional, checked by delta)
+      side = (a.bind b).bind c                 ↦  a.bind fun x => (b x).bind c   (`bassocR` / `bassocL`)
+      side = (some v).bind K                   ↦  K v                            (`bsomeR` / `bsomeL`)
+      lhs = x.bind F, rhs = y.bind G           ↦  `x = y` by `rfl` on the small operand terms, continue with `F a = G a`
+  and closes the final `some r = some r'` goal by `rfl`.  Every move is linear in the term.
 -/
 import Lean
 namespace Cx.Proofs.BindWalk
@@ -24,39 +26,97 @@ theorem bcongr {α β : Type} (x y : Option α) (f g : α → Option β) (hx : x
 
 theorem bsomeR {α β : Type} (L : Option β) (v : α) (K : α → Option β) (h : L = K v) : L = (some v).bind K := h
 theorem bsomeL {α β : Type} (R : Option β) (v : α) (K : α → Option β) (h : K v = R) : (some v).bind K = R := h
+theorem bassocR {α β γ : Type} (L : Option γ) (a : Option α) (b : α → Option β) (c : β → Option γ)
+    (h : L = a.bind fun x => (b x).bind c) : L = (a.bind b).bind c := by
+  rw [h]; cases a <;> rfl
+theorem bassocL {α β γ : Type} (R : Option γ) (a : Option α) (b : α → Option β) (c : β → Option γ)
+    (h : (a.bind fun x => (b x).bind c) = R) : (a.bind b).bind c = R := by
+  rw [← h]; cases a <;> rfl
 
-/-- remove `(some v).bind K` redexes at the head of both sides of the goal, each by an explicit lemma application (the
-    kernel is never asked to discover the reduction by unfolding), after exposing the heads by beta / iota / projections -/
-partial def normHeads : TacticM Unit := withMainContext do
+/-- `Bind.bind` / `Pure.pure` of the `Option` monad (what `do` notation elaborates to) as `Option.bind` / `some` -/
+def optForm (e : Expr) : Expr :=
+  if e.isAppOfArity ``Bind.bind 6 && (e.getArg! 0).isConstOf ``Option then
+    mkApp4 (mkConst ``Option.bind [Level.zero, Level.zero]) (e.getArg! 2) (e.getArg! 3) (e.getArg! 4) (e.getArg! 5)
+  else if e.isAppOfArity ``Pure.pure 4 && (e.getArg! 0).isConstOf ``Option then
+    mkApp2 (mkConst ``Option.some [Level.zero]) (e.getArg! 2) (e.getArg! 3)
+  else e
+
+/-- ONE definitional move at the head of a side (so that the kernel re-checks it by a single unfolding, never by a search):
+    beta / zeta / iota / projections at the root or at the head operand of a bind; `Bind.bind`/`Pure.pure` of the `Option`
+    monad into `Option.bind`/`some` form; a helper constant of `unf` unfolded at the root or as the head operand. -/
+def defMove (unf : Array Name) (e : Expr) : MetaM (Option Expr) := do
+  let e1 ← whnfCore e
+  if e1 != e then return some e1
+  let e2 := optForm e
+  if e2 != e then return some e2
+  let fn := e.getAppFn
+  if fn.isConst && unf.contains fn.constName! then
+    if let some e' ← unfoldDefinition? e then return some e'
+  if e.isAppOfArity ``Option.bind 4 then
+    let x := e.getArg! 2
+    let rebuild (x' : Expr) : Expr := mkApp4 e.getAppFn (e.getArg! 0) (e.getArg! 1) x' (e.getArg! 3)
+    let x1 ← whnfCore x
+    if x1 != x then return some (rebuild x1)
+    let x2 := optForm x
+    if x2 != x then return some (rebuild x2)
+    let xfn := x.getAppFn
+    if xfn.isConst && unf.contains xfn.constName! then
+      if let some x' ← unfoldDefinition? x then return some (rebuild x')
+  return none
+
+/-- normalise the heads of both sides of the goal `lhs = rhs` -/
+partial def normHeads (unf : Array Name) : TacticM Unit := withMainContext do
   let g ← getMainGoal
   let t ← instantiateMVars (← g.getType)
-  let some (_, lhs, rhs) := t.eq? | throwError "bind_walk: goal is not an equation"
-  let lhs' ← whnfCore lhs
-  let rhs' ← whnfCore rhs
-  let g ← if lhs' == lhs && rhs' == rhs then pure g else g.replaceTargetDefEq (← mkEq lhs' rhs')
-  replaceMainGoal [g]
+  let some (_, lhs', rhs') := t.eq? | throwError "bind_walk: goal is not an equation"
+  if let some r ← defMove unf rhs' then
+    replaceMainGoal [← g.replaceTargetDefEq (← mkEq lhs' r)]
+    return ← normHeads unf
+  if let some l ← defMove unf lhs' then
+    replaceMainGoal [← g.replaceTargetDefEq (← mkEq l rhs')]
+    return ← normHeads unf
   if rhs'.isAppOfArity ``Option.bind 4 then
-    let x ← whnfCore (rhs'.getArg! 2)
+    let x := rhs'.getArg! 2
+    let k := rhs'.getArg! 3
     if x.isAppOfArity ``Option.some 2 then
       let v := x.getArg! 1
-      let k := rhs'.getArg! 3
       let newGoal ← mkFreshExprSyntheticOpaqueMVar (← mkEq lhs' (k.beta #[v]))
       g.assign (← mkAppM ``Cx.Proofs.BindWalk.bsomeR #[lhs', v, k, newGoal])
       replaceMainGoal [newGoal.mvarId!]
-      return ← normHeads
+      return ← normHeads unf
+    if x.isAppOfArity ``Option.bind 4 then
+      let a := x.getArg! 2
+      let b := x.getArg! 3
+      let inner ← withLocalDeclD `x (x.getArg! 0) fun xv => do
+        mkLambdaFVars #[xv] (mkApp4 rhs'.getAppFn (rhs'.getArg! 0) (rhs'.getArg! 1) (b.beta #[xv]) k)
+      let new := mkApp4 rhs'.getAppFn (x.getArg! 0) (rhs'.getArg! 1) a inner
+      let newGoal ← mkFreshExprSyntheticOpaqueMVar (← mkEq lhs' new)
+      g.assign (← mkAppM ``Cx.Proofs.BindWalk.bassocR #[lhs', a, b, k, newGoal])
+      replaceMainGoal [newGoal.mvarId!]
+      return ← normHeads unf
   if lhs'.isAppOfArity ``Option.bind 4 then
-    let x ← whnfCore (lhs'.getArg! 2)
+    let x := lhs'.getArg! 2
+    let k := lhs'.getArg! 3
     if x.isAppOfArity ``Option.some 2 then
       let v := x.getArg! 1
-      let k := lhs'.getArg! 3
       let newGoal ← mkFreshExprSyntheticOpaqueMVar (← mkEq (k.beta #[v]) rhs')
       g.assign (← mkAppM ``Cx.Proofs.BindWalk.bsomeL #[rhs', v, k, newGoal])
       replaceMainGoal [newGoal.mvarId!]
-      return ← normHeads
+      return ← normHeads unf
+    if x.isAppOfArity ``Option.bind 4 then
+      let a := x.getArg! 2
+      let b := x.getArg! 3
+      let inner ← withLocalDeclD `x (x.getArg! 0) fun xv => do
+        mkLambdaFVars #[xv] (mkApp4 lhs'.getAppFn (lhs'.getArg! 0) (lhs'.getArg! 1) (b.beta #[xv]) k)
+      let new := mkApp4 lhs'.getAppFn (x.getArg! 0) (lhs'.getArg! 1) a inner
+      let newGoal ← mkFreshExprSyntheticOpaqueMVar (← mkEq new rhs')
+      g.assign (← mkAppM ``Cx.Proofs.BindWalk.bassocL #[rhs', a, b, k, newGoal])
+      replaceMainGoal [newGoal.mvarId!]
+      return ← normHeads unf
 
 /-- one step of the walk; fails when neither side has a bind at its head or the two head operations differ -/
-def step : TacticM Unit := do
-  normHeads
+def step (unf : Array Name) : TacticM Unit := do
+  normHeads unf
   withMainContext do
   let g ← getMainGoal
   let t ← instantiateMVars (← g.getType)
@@ -79,13 +139,35 @@ def step : TacticM Unit := do
   let (_, g') ← newGoal.mvarId!.intro1
   replaceMainGoal [g']
 
+def resolveNames (ids : Array (TSyntax `ident)) : TacticM (Array Name) :=
+  ids.mapM fun i => do
+    let n ← realizeGlobalConstNoOverloadWithInfo i
+    pure n
+
 /-- one lock-step move of the walk -/
-elab "bind_step" : tactic => step
+elab "bind_step" "[" ids:ident,* "]" : tactic => do step (← resolveNames ids.getElems)
 
 /-- expose the heads of what is left (e.g. a trailing `(some v).bind K` on the model side) -/
-elab "bind_head" : tactic => normHeads
+elab "bind_head" "[" ids:ident,* "]" : tactic => do normHeads (← resolveNames ids.getElems)
 
-/-- walk the two bind chains in lock step as long as both have a bind at the head, then expose the remaining heads -/
-macro "bind_walk" : tactic => `(tactic| (repeat bind_step; bind_head))
+/-- `bind_walk [helper, …]`: walk the two bind chains in lock step as long as both have a bind at the head (unfolding
+    the named helper definitions when they come to the head), expose the remaining heads and close the goal by `rfl`.
+    After every 100 moves the rest of the proof is wrapped into an auxiliary lemma (`as_aux_lemma`), so that the nesting
+    depth of any single proof term stays small (the kernel otherwise reports "deep recursion" on `sc_muladd`). -/
+syntax "bind_walk" "[" ident,* "]" : tactic
+
+elab_rules : tactic
+  | `(tactic| bind_walk [$ids,*]) => do
+    let unf ← resolveNames ids.getElems
+    let mut n := 0
+    let mut more := true
+    while more && n < 100 do
+      let ok ← try step unf; pure true catch _ => pure false
+      if ok then n := n + 1 else more := false
+    if more then
+      evalTactic (← `(tactic| as_aux_lemma => bind_walk [$ids,*]))
+    else
+      normHeads unf
+      evalTactic (← `(tactic| rfl))
 
 end Cx.Proofs.BindWalk
